@@ -12,27 +12,32 @@ open Bpp.Text Bpp.Text.U
 
 /-! ## removeComments -/
 
-/-- **removeComments is safe and terminates** for any text and any pair of non-empty marks whose
-first characters differ (the three pairs used by the code: `#`/newline, `//`/newline, `/*`/`*/`):
-every round erases at least one character. -/
-theorem removeComments_safe (s b e : Str) (hs : StrOk s) (hb : b ≠ []) (he : e ≠ [])
-    (hne : b.head? ≠ e.head?) : safe (removeComments s b e) = true :=
-  rmCommentsLoop_safe b e hb he hne _ _ _ hs (by omega)
+/-- **removeComments is safe and terminates for any text and ANY pair of marks** (after the repair
+"fix: AttributesTools::removeComments never returned for marks that start with one another"): marks
+one of which starts with the other (an empty mark, twice the same mark) are refused with the
+library's exception; for all the others the end mark is found strictly after the place where the
+begin mark was found, so every round erases at least one character. -/
+theorem removeComments_safe (s b e : Str) (hs : StrOk s) : safe (removeComments s b e) = true :=
+  removeComments_safe_lem s b e hs
 
 example : removeComments "a=1 # c".toList "#".toList "\n".toList = .ok "a=1 ".toList := by decide
 example : removeComments "a=/*x*/1/*y*/2".toList "/*".toList "*/".toList = .ok "a=*/1*/2".toList := by
   decide
+example : removeComments "ab".toList "ab".toList "a".toList = .error .bpp := by decide
+example : removeComments "ab".toList [] "a".toList = .error .bpp := by decide
 
 /-- the result is never longer than the text -/
 theorem removeComments_alloc (s b e r : Str) (h : removeComments s b e = .ok r) :
     r.length ≤ s.length :=
-  rmCommentsLoop_alloc b e _ _ _ _ h
+  removeComments_alloc_lem s b e r h
 
-/-- without the hypothesis on the first characters the loop may not end: with `begin = end = "a"`
-the end mark is found where the begin mark is, nothing is erased, and the next round starts from the
-same place -/
-theorem removeComments_general_hangs :
-    removeComments "a".toList "a".toList "a".toList = .error .hang := by decide
+/-- **the code as found did not return** for such marks: with `begin = end = "a"` the end mark is
+found where the begin mark is, nothing is erased, and the next round starts from the same place;
+the same with an empty mark, or with `begin = "ab"`, `end = "a"` (first characters equal) -/
+theorem removeComments_old_hangs :
+    removeCommentsOld "a".toList "a".toList "a".toList = .error .hang ∧
+    removeCommentsOld "\n".toList [] "\n".toList = .error .hang ∧
+    removeCommentsOld "ab".toList "ab".toList "a".toList = .error .hang := by decide
 
 /-- the cleaning of one line (three `removeComments`, then `removeWhiteSpaces`) -/
 theorem cleanLine_safe (line : Str) (hs : StrOk line) : safe (cleanLine line) = true :=
@@ -214,6 +219,25 @@ theorem resolve_hangs_witness (fuel : Nat) :
   have e : [("a".toList, "$(b)".toList), ("b".toList, "$(b)$(b)".toList)] = cyclicMap := by decide
   rw [e]
   exact cyclic_resolve_hangs fuel
+
+/-- **why a bounded-expansion guard was not added** (round 2 re-assessment).  A guard "raise after
+more than `c(|map|)` substitutions in one entry" changes no terminating run only if `c` is above
+what every acyclic map needs.  That need is exponential in the number of entries: the five acyclic
+definitions `z0=$(z1)$(z1), z1=$(z2)$(z2), z2=$(z3)$(z3), z3=$(z4)$(z4), z4=` make the loop of
+`z0` substitute 30 = 2^5 - 2 times (31 rounds of the model's loop, the last one finds no
+variable) while no value ever exceeds 20 characters — with `n` entries `2^n - 2` times.  A cap
+polynomial in the size of the map (or any cap on the value length: the oscillating witness above
+never grows) would refuse such terminating runs, and a cap of `2^|map|` is no guard in practice.
+Telling the cyclic definitions apart needs the set of variables under expansion, i.e. the real
+cycle detection that was judged too costly. -/
+theorem resolve_acyclic_needs_exponential_rounds :
+    let m : Keyval.Map := [("z0".toList, "$(z1)$(z1)".toList), ("z1".toList, "$(z2)$(z2)".toList),
+      ("z2".toList, "$(z3)$(z3)".toList), ("z3".toList, "$(z4)$(z4)".toList), ("z4".toList, [])]
+    resolveVariablesU '$' '(' ')' 30 m = .error .hang ∧
+    resolveVariablesU '$' '(' ')' 31 m =
+      .ok [("z0".toList, []), ("z1".toList, []), ("z2".toList, []), ("z3".toList, []), ("z4".toList, [])] := by
+  decide +kernel
+
 
 /- The full-strength termination statement
      `∀ am, ∃ F, ∀ fuel, F ≤ fuel → resolveVariablesU '$' '(' ')' fuel am ≠ .error .hang`
